@@ -3,6 +3,7 @@ package rules
 import (
 	"fmt"
 	"go/constant"
+	"go/token"
 	"go/types"
 	"sort"
 	"strings"
@@ -89,16 +90,144 @@ func (h *fwdHooks) OnCall(c *engine.Ctx, instr ssa.Instruction, callee *ssa.Func
 			h.appendTrace(c, "<?string>")
 		}
 		return true, engine.TupleV{Elems: []engine.AbsVal{engine.Top{}, engine.NilV{}}}
-	case "strconv.Itoa":
+	case "strconv.Itoa", "strconv.FormatInt":
 		if s, ok := args[0].(engine.Sym); ok {
 			return true, str("<" + s.Name + ">")
 		}
 		return true, str("<?int>")
+	case "strconv.AppendInt":
+		cur, ok := constStr(args[0])
+		if !ok {
+			return true, engine.Top{}
+		}
+		if s, ok := args[1].(engine.Sym); ok {
+			return true, str(cur + "<" + s.Name + ">")
+		}
+		return true, str(cur + "<?int>")
+	case "unicode/utf8.AppendRune":
+		cur, ok := constStr(args[0])
+		if !ok {
+			return true, engine.Top{}
+		}
+		return true, str(cur + runeTok(args[1]))
 	case "(*strings.Builder).String":
 		cur, _ := constStr(c.Heap.Get("trace", ""))
 		return true, str(cur)
 	}
 	return false, nil
+}
+
+func runeTok(v engine.AbsVal) string {
+	switch x := v.(type) {
+	case engine.Const:
+		if n, ok := constInt(x); ok {
+			return string(rune(n))
+		}
+	case engine.Other:
+		return "<verb>"
+	}
+	return "<?rune>"
+}
+
+// EvalValue models a format under construction in a byte slice or by string
+// concatenation: the value is the text built so far (same tokens as the
+// strings.Builder trace).
+func (h *fwdHooks) EvalValue(c *engine.Ctx, v ssa.Value, ops []engine.AbsVal) (engine.AbsVal, bool) {
+	isBytes := func(t types.Type) bool {
+		sl, ok := t.Underlying().(*types.Slice)
+		if !ok {
+			return false
+		}
+		b, ok := sl.Elem().Underlying().(*types.Basic)
+		return ok && b.Kind() == types.Uint8
+	}
+	isString := func(t types.Type) bool {
+		b, ok := t.Underlying().(*types.Basic)
+		return ok && b.Info()&types.IsString != 0
+	}
+	switch x := v.(type) {
+	case *ssa.MakeSlice:
+		if n, ok := constInt(ops[0]); ok && n == 0 && isBytes(x.Type()) {
+			return str(""), true
+		}
+	case *ssa.Slice:
+		// make([]byte, 0, K) with constant K: a fresh array sliced to [:0]
+		if al, ok := x.X.(*ssa.Alloc); ok && isBytes(x.Type()) && x.Low == nil {
+			if n, ok := intConst(x.High); ok && n == 0 {
+				_ = al
+				return str(""), true
+			}
+		}
+		// text[:] / text[0:] keep the text
+		if s, ok := constStr(ops[0]); ok && x.Low == nil && x.High == nil {
+			return str(s), true
+		}
+	case *ssa.Convert:
+		from, to := x.X.Type(), x.Type()
+		switch {
+		case isString(to) && !isString(from) && !isBytes(from):
+			// string(rune)
+			if b, ok := from.Underlying().(*types.Basic); ok && b.Info()&types.IsInteger != 0 {
+				return str(runeTok(ops[0])), true
+			}
+		case (isString(to) && isBytes(from)) || (isBytes(to) && isString(from)):
+			if s, ok := constStr(ops[0]); ok {
+				return str(s), true
+			}
+		}
+	case *ssa.BinOp:
+		if x.Op == token.ADD && isString(x.Type()) {
+			a, ok1 := constStr(ops[0])
+			b, ok2 := constStr(ops[1])
+			if !ok1 {
+				a = "<?string>"
+			}
+			if !ok2 {
+				b = "<?string>"
+			}
+			return str(a + b), true
+		}
+	case *ssa.Call:
+		// append(text, more...)
+		cur, ok := constStr(ops[0])
+		if !ok || len(ops) < 2 {
+			return nil, false
+		}
+		if s, ok := constStr(ops[1]); ok {
+			return str(cur + s), true
+		}
+		// append(text, b1, b2): the operands sit in a fresh array
+		if sl, ok := x.Common().Args[1].(*ssa.Slice); ok {
+			if al, ok := sl.X.(*ssa.Alloc); ok && al.Referrers() != nil {
+				toks := map[int64]string{}
+				for _, ref := range *al.Referrers() {
+					ia, ok := ref.(*ssa.IndexAddr)
+					if !ok || ia.Referrers() == nil {
+						continue
+					}
+					idx, ok := intConst(ia.Index)
+					if !ok {
+						return str(cur + "<?bytes>"), true
+					}
+					for _, u := range *ia.Referrers() {
+						if st, ok := u.(*ssa.Store); ok && st.Addr == ia {
+							if n, ok := constInt(c.Eval(st.Val)); ok {
+								toks[idx] = string(rune(n))
+							} else {
+								toks[idx] = "<?byte>"
+							}
+						}
+					}
+				}
+				for i := int64(0); i < int64(len(toks)); i++ {
+					cur += toks[i]
+				}
+				return str(cur), true
+			}
+		}
+		return str(cur + "<?bytes>"), true
+	}
+	return nil, false
 }
 
 var fwdFlags = []rune{'+', '-', '#', ' ', '0'}
@@ -256,23 +385,22 @@ func ruleC14d(c *Ctx) []*report.Result {
 			r.Fail(construct, "internal/redact/wrappers.go", "wrapper Format method not found", nil, "")
 			continue
 		}
-		var calls []*ssa.Call
-		for _, b := range fn.Blocks {
-			for _, ins := range b.Instrs {
-				if call, ok := ins.(*ssa.Call); ok {
-					calls = append(calls, call)
-				}
-			}
-		}
+		// helpers of the wrapper package are read in place
+		fl := flatten(fn, func(g *ssa.Function) bool { return g.Pkg == fn.Pkg })
+		calls := fl.calls
 		pos := c.P.Pos(fn.Pos())
-		if len(calls) != 1 || calls[0].Common().StaticCallee() == nil || calls[0].Common().StaticCallee().String() != pkgFwd+".ReproducePrintf" {
+		if !fl.straight || len(calls) != 1 || calls[0].Common().StaticCallee() == nil || calls[0].Common().StaticCallee().String() != pkgFwd+".ReproducePrintf" {
 			r.Fail(construct+" / single forward", pos, "body must be exactly one call of fmtforward.ReproducePrintf", nil, "")
 			continue
 		}
-		a := calls[0].Common().Args
+		if _, isCall := calls[0].(*ssa.Call); !isCall {
+			r.Fail(construct+" / single forward", pos, "the forward must be a plain call", nil, "")
+			continue
+		}
+		a := fl.args(calls[0])
 		sParam, verbParam := fn.Params[1], fn.Params[2]
-		okW := stripIface(a[0]) == sParam
-		okS := stripIface(a[1]) == sParam
+		okW := fl.deep(a[0]) == sParam
+		okS := fl.deep(a[1]) == sParam
 		okV := a[2] == verbParam
 		okA := false
 		if fld, ok := a[3].(*ssa.Field); ok && fld.X == fn.Params[0] {
